@@ -13,7 +13,7 @@ def gen_type(rng, depth, ctx):
     opts = ['base', 'base']
     if ctx['tparams']: opts += ['tparam', 'tparam']
     if depth > 0:
-        opts += ['option', 'vec', 'box', 'tuple2', 'tuple1', 'array', 'hashmap', 'btreemap', 'pathvec', 'pathopt', 'phantom', 'unit', 'tuple3']
+        opts += ['option', 'vec', 'box', 'tuple2', 'tuple1', 'array', 'hashmap', 'btreemap', 'pathvec', 'pathopt', 'phantom', 'unit', 'tuple3', 'constarg']
         if ctx['lt']: opts += ['optref', 'vecref', 'optreftuple', 'cow', 'cow']
         if ctx.get('lt2'): opts += ['optref2', 'optref2', 'optref2b']
         if ctx['constn']: opts += ['arrayn']
@@ -28,6 +28,7 @@ def gen_type(rng, depth, ctx):
     if k == 'tuple3': return f"({sub()}, {sub()}, {sub()},)"
     if k == 'tuple1': return f"({sub()},)"
     if k == 'unit': return "()"
+    if k == 'constarg': return rng.choice([f"CArr<{rng.choice(BASE)}, {rng.choice(LEN_SPELLINGS)}>", "CNeg<-1>", "CNeg<-0x10>", "CCh<'x'>", f"Option<CArr<{rng.choice(BASE)}, 2>>", "CNeg<7>"])
     if k == 'array': return f"[{sub()}; {rng.choice(LEN_SPELLINGS)}]"        # every spelling of an integer literal: separators, radix prefix, type suffix
     if k == 'arrayn': ctx['used'].add('N'); return f"[{sub()}; N]"
     if k == 'hashmap': return f"std::collections::HashMap<{rng.choice(KEYS)}, {sub()}>"
@@ -296,6 +297,13 @@ impl<K: Mk + Ord, V: Mk> Mk for BTreeMap<K, V> { fn mk(s: u64) -> Self { (0..(s 
 impl<T> Mk for std::marker::PhantomData<T> { fn mk(_: u64) -> Self { std::marker::PhantomData } }
 impl<'x> Mk for std::borrow::Cow<'x, str> { fn mk(s: u64) -> Self { if s % 2 == 0 { std::borrow::Cow::Borrowed(["p", "q", "r"][(s % 3) as usize]) } else { std::borrow::Cow::Owned(format!("o{}", s % 4)) } } }
 impl<T: Mk + 'static> Mk for &'static T { fn mk(s: u64) -> Self { Box::leak(Box::new(T::mk(s))) } }
+/// types that take const arguments (heapless::Vec<T, N>-like): literal, negative, char and named const arguments in field types
+#[derive(Debug, Clone, PartialEq)] #[cfg_attr(feature = "sd", derive(serde::Serialize, serde::Deserialize))] pub struct CArr<T, const K: usize>(pub Vec<T>);
+impl<T: Mk, const K: usize> Mk for CArr<T, K> { fn mk(s: u64) -> Self { CArr((0..K as u64).map(|i| T::mk(s + i)).collect()) } }
+#[derive(Debug, Clone, PartialEq)] #[cfg_attr(feature = "sd", derive(serde::Serialize, serde::Deserialize))] pub struct CNeg<const I: i32>(pub i64);
+impl<const I: i32> Mk for CNeg<I> { fn mk(s: u64) -> Self { CNeg(Mk::mk(s)) } }
+#[derive(Debug, Clone, PartialEq)] #[cfg_attr(feature = "sd", derive(serde::Serialize, serde::Deserialize))] pub struct CCh<const C: char>(pub u8);
+impl<const C: char> Mk for CCh<C> { fn mk(s: u64) -> Self { CCh(Mk::mk(s)) } }
 /// a trait implemented for a few concrete types only: a where clause over it is NOT implied by anything, so every generated impl has to repeat it
 pub trait Marker {}
 impl Marker for (i64, String) {} impl Marker for (i64, i64) {} impl Marker for (String, i64) {} impl Marker for (String, String) {}
@@ -351,6 +359,8 @@ KNOWN_BAD = {
          "#[derive(Debug, Clone, PartialEq, Difference)]\n#[difference(expose = r#\"DDelta\"#)]\npub struct D { #[difference(collection_strategy = r\"unordered_array_like\", setter_name = r\"put_v\")] pub v: Vec<u8>, pub n: u8 }\n"),
  'D27': ("a const parameter whose default is an expression other than a plain integer literal or a path (const N: i32 = -1, const C: char = 'x', const M: usize = { 1 + 2 }): the derive panics",
          "#[derive(Debug, Clone, PartialEq, Difference)]\npub struct D<const N: i32 = -1, const C: char = 'x', const M: usize = { 1 + 2 }> { pub a: [u8; M], pub n: u8 }\n"),
+ 'D28': ("a field type with a literal const generic argument (heapless::Vec<u8, 4>-like: W<u8, 4>, W<u8, 0x4>, Neg<-1>, W<u8, { N }>): the derive panics (Expecting closing generic bracket)",
+         "#[derive(Debug, Clone, PartialEq)]\npub struct W<T, const K: usize>(pub [T; K]);\n#[derive(Debug, Clone, PartialEq)]\npub struct Neg<const I: i32>;\n#[derive(Debug, Clone, PartialEq)]\npub struct Ch<const C: char>;\n#[derive(Debug, Clone, PartialEq, Difference)]\npub struct D<const N: usize> { pub w: W<u8, 4>, pub o: Option<W<i64, 0x2>>, pub x: Neg<-1>, pub c: Ch<'x'>, pub b: W<u8, { N }>, pub a: [u8; N], pub n: u8 }\n"),
  'D7': ("trailing comma inside a difference attribute", "#[derive(Debug, Clone, PartialEq, Difference)]\npub struct D { #[difference(skip,)] pub f0: i64, pub f1: i64 }\n"),
  'D8': ("generic parameter used only behind a reference inside another type", "#[derive(Debug, Clone, PartialEq, Difference)]\npub struct D<'a, T> { pub o: Option<&'a T> }\n"),
  'D8b': ("generic parameter used only as the head of an associated-type path (same cause as D8: the used-parameter test compares the parameter's name with whole base strings)",
@@ -362,7 +372,7 @@ KNOWN_BAD = {
 # ---------------------------------------------------------------- field types for the parser tie
 def gen_parse_type(rng, depth):
     """(text, in_supported_grammar): field types incl. forms the templates never see, for pd dump vs Coq model"""
-    k = rng.choice(['id', 'id', 'path', 'generic', 'generic2', 'ref', 'reflt', 'tuple', 'tuple1', 'unit', 'array', 'arraylit', 'arrayname', 'never', 'lifetimearg', 'nested', 'dyn', 'fnptr', 'assoc', 'refref'] if depth > 0 else ['id', 'path', 'unit'])
+    k = rng.choice(['id', 'id', 'path', 'generic', 'generic2', 'ref', 'reflt', 'tuple', 'tuple1', 'unit', 'array', 'arraylit', 'arrayname', 'constarg', 'never', 'lifetimearg', 'nested', 'dyn', 'fnptr', 'assoc', 'refref'] if depth > 0 else ['id', 'path', 'unit'])
     s = lambda: gen_parse_type(rng, depth - 1)
     ident = lambda: rng.choice(['T', 'U', 'u8', 'i64', 'String', 'Foo', 'r#type', 'Self'])
     if k == 'id': return ident(), True
@@ -379,6 +389,7 @@ def gen_parse_type(rng, depth):
     if k == 'array': t, ok = s(); return f"[{t}]", ok
     if k == 'arraylit': t, ok = s(); return f"[{t}; {rng.choice([0, 4, 16, '4usize', '0x10', '1_6', '0b100', '0o20', '0_usize'])}]", ok
     if k == 'arrayname': t, ok = s(); return f"[{t}; N]", ok
+    if k == 'constarg': t, ok = s(); return rng.choice([f"ArrayVec<{t}, 4>", f"heapless::Vec<{t}, 0x10>", "Neg<-1>", "Ch<'x'>", f"W<{t}, N>", "Flag<true>", f"Two<3, {t}, -2>"]), ok
     if k == 'never': return "!", True
     if k == 'lifetimearg': t, ok = s(); return f"Cow<'a, {t}>", ok
     if k == 'nested': t, ok = s(); return f"Option<Vec<(u8, {t})>>", ok
